@@ -15,6 +15,7 @@ class Block:
         self.choose = choose or (lambda c: None)
         self.state = {}      # ("elem", key, k) / ("var", key) -> sympy
         self.loops = None    # set to [] to evaluate for-loops as one symbolic iteration
+        self.decide_ternaries = False   # opt-in: resolve `c ? a : b` through `choose` like an if-statement
         self.user_hook = hook
         self.sym = norm.Sym(P, F, inline_locals=False, hook=self.hook)
 
@@ -61,7 +62,7 @@ class Block:
             h = self.user_hook(n)
             if h is not None:
                 return h
-        if n.get("k") == "ConditionalOperator":
+        if n.get("k") == "ConditionalOperator" and self.decide_ternaries:
             v = self.decide(n["c"][0])
             if v is not None:
                 return self.sym(n["c"][1] if v else n["c"][2])
